@@ -15,7 +15,7 @@ var dumpers = map[string]func(c *Ctx){}
 
 // Dump prints engine internals for debugging the checker itself.
 func Dump(what string) {
-	p, err := prog.Load(false)
+	p, err := prog.Load(os.Getenv("JSVERIF_DEEP") != "")
 	if err != nil {
 		fmt.Println("load:", err)
 		os.Exit(1)
